@@ -387,3 +387,13 @@ Proof.
   pose proof (@rlimit_restored A' B' (ans' a) (fun _ => ERuntime) proj' budget cur' true {| rl := r; gs := Susp 0 |} limit' R) as H.
   destruct (evaluate_bounded _ _ _ _ _ _ _) as [[x|e] st']; simpl in *; exact H.
 Qed.
+
+(* the two statements as Properties/C17.v quotes them *)
+Lemma generator_closed_every_generator (A B : Type) (ans : nat -> res A) (gexc : nat -> exc)
+  (proj : nat -> A -> nat -> pout B * nat) budget cur st limit :
+  running cur st -> gs (snd (evaluate_bounded ans gexc proj budget cur true st limit)) = Done.
+Proof. intros R. apply generator_closed_on_every_branch; auto. Qed.
+
+Lemma nested_keeps_rlimit_all : forall (A A' B' : Type) (ans' : A -> nat -> res A') proj' budget cur' limit' k a r,
+  cur' < r -> snd (@nested_projection A A' B' ans' proj' budget cur' limit' k a r) = r.
+Proof. intros A A' B'. exact (@nested_keeps_rlimit A A' B'). Qed.
